@@ -30,6 +30,8 @@ WRITES = ('''r is Ok ==> ({ let t0 = old(self).out.text(); let t1 = final(self).
 
 CHARS = [(1, 'chars')]
 import re as _re
+# `matches!(s.as_bytes().get(I), Some(b'x' | b'y'))` -> `ascii_byte_in(s, I, &[b'x', b'y'])`: the byte alternatives stay in the verified text
+_BYTE_SET = lambda m: 'ascii_byte_in(s, %s, &[%s])' % (m.group(1), ', '.join(x.strip() for x in m.group(2).split('|')))
 def _on_sink(item):
     """R38: a method that touches `self` only through `self.out` is verified as a function of that field (`out: &mut Sink`);
     the method itself is a two-line wrapper in quoting.shim.rs whose frame (`same_pos`) then holds by construction.  If a
@@ -425,7 +427,7 @@ ITEMS = [
          fragment=r"if let Some\(exp_pos\) = s\.find\('e'\).*?\} else \{\s*target\.write_str\(s\)\?;\s*\}", fragment_flags='S',
          wrapper='fn write_float_text_fragment(target: &mut Sink, s: &str) -> Result<(), SerError> { {FRAG} Ok(()) }',
          pre_rewrites=[(r"s\.find\('e'\)\.or_else\(\|\| s\.find\('E'\)\)", "(match ascii_find(s, 'e') { Some(__p) => Some(__p), None => ascii_find(s, 'E') })", 1, 'R18'),
-                       (r'!matches!\(s\.as_bytes\(\)\.get\(exp_pos \+ 1\), Some\(b\'\+\' \| b\'-\'\)\)', '!ascii_sign_at(s, exp_pos + 1)', 1, 'R8')],
+                       (r'matches!\(s\.as_bytes\(\)\.get\(([^,()]+)\), Some\(([^()]*)\)\)', _BYTE_SET, 1, 'R8')],
          rewrites=[(r"s\[\.\.exp_pos\]\.contains\('\.'\)", "ascii_contains(ascii_slice(s, 0, exp_pos), '.')", None, 'R8'),
                    (r'&s\[\.\.exp_pos\]', 'ascii_slice(s, 0, exp_pos)', None, 'R8'),
                    (r'&s\[exp_pos\.\.=exp_pos\]', 'ascii_slice(s, exp_pos, exp_pos + 1)', None, 'R8'),
@@ -443,7 +445,7 @@ ITEMS = [
          fragment=r"if let Some\(exp_pos\) = s\.find\('e'\).*?\} else \{\s*target\.push_str\(s\);\s*\}", fragment_flags='S',
          wrapper='fn push_float_text_fragment(target: &mut String, s: &str) { {FRAG} }',
          pre_rewrites=[(r"s\.find\('e'\)\.or_else\(\|\| s\.find\('E'\)\)", "(match ascii_find(s, 'e') { Some(__p) => Some(__p), None => ascii_find(s, 'E') })", 1, 'R18'),
-                       (r'!matches!\(s\.as_bytes\(\)\.get\(exp_pos \+ 1\), Some\(b\'\+\' \| b\'-\'\)\)', '!ascii_sign_at(s, exp_pos + 1)', 1, 'R8')],
+                       (r'matches!\(s\.as_bytes\(\)\.get\(([^,()]+)\), Some\(([^()]*)\)\)', _BYTE_SET, 1, 'R8')],
          rewrites=[(r"s\[\.\.exp_pos\]\.contains\('\.'\)", "ascii_contains(ascii_slice(s, 0, exp_pos), '.')", None, 'R8'),
                    (r'&s\[\.\.exp_pos\]', 'ascii_slice(s, 0, exp_pos)', None, 'R8'),
                    (r'&s\[exp_pos\.\.=exp_pos\]', 'ascii_slice(s, exp_pos, exp_pos + 1)', None, 'R8'),
